@@ -66,14 +66,94 @@ def _written_by_nested(cfg: CFG) -> Set[str]:
     return out
 
 
-def _none_test(t: ast.AST) -> Optional[Tuple[str, bool]]:
-    """(name, True) for `name is None`, (name, False) for `name is not None`."""
-    if isinstance(t, ast.Compare) and len(t.ops) == 1 and isinstance(t.left, ast.Name) \
-            and isinstance(t.comparators[0], ast.Constant) and t.comparators[0].value is None:
-        if isinstance(t.ops[0], ast.Is):
-            return t.left.id, True
-        if isinstance(t.ops[0], ast.IsNot):
-            return t.left.id, False
+def _none_test(t: ast.AST, cfg: Optional[CFG] = None) -> Optional[Tuple[str, bool, Optional[str]]]:
+    """(name, True, None) for `name is None`, (name, False, None) for `name is not None`; with a *cfg* also
+    (name, True/False, S) for `name is S` / `name is not S` (either order) where S is a private sentinel
+    (see `sentinels`)."""
+    if isinstance(t, ast.Compare) and len(t.ops) == 1 and isinstance(t.ops[0], (ast.Is, ast.IsNot)):
+        a, b = t.left, t.comparators[0]
+        pos = isinstance(t.ops[0], ast.Is)
+        if isinstance(a, ast.Name) and isinstance(b, ast.Constant) and b.value is None:
+            return a.id, pos, None
+        if cfg is not None and isinstance(a, ast.Name) and isinstance(b, ast.Name):
+            ss = sentinels(cfg)
+            if b.id in ss and a.id not in ss:
+                return a.id, pos, b.id
+            if a.id in ss and b.id not in ss:
+                return b.id, pos, a.id
+    return None
+
+
+def sentinels(cfg: CFG) -> Set[str]:
+    """Names that denote a private sentinel in this function: a single-assignment variable - of the function
+    itself (outside loops), of an enclosing function or of the module - whose value is `object()`, that no nested
+    function rebinds.  `x is S` is then tracked along paths like `x is None` (a sentinel is truthy and is
+    neither None nor any other sentinel nor any object built elsewhere)."""
+    if '_sentinels' in cfg.__dict__:
+        return cfg.__dict__['_sentinels']
+    out: Set[str] = set()
+    cfg.__dict__['_sentinels'] = out
+    cand: Set[str] = set()
+    for n in cfg.nodes:
+        for t in ([n.meta['test']] if n.kind == 'branch' else [n.meta.get('value')] if n.kind == 'store_name' else []):
+            if t is None:
+                continue
+            for x in ast.walk(t):
+                if isinstance(x, ast.Compare) and len(x.ops) == 1 and isinstance(x.ops[0], (ast.Is, ast.IsNot)):
+                    for y in (x.left, x.comparators[0]):
+                        if isinstance(y, ast.Name):
+                            cand.add(y.id)
+    written = _written_by_nested(cfg)
+    for nm in cand - written:
+        v = _single_value(cfg, nm)
+        if isinstance(v, ast.Call) and isinstance(v.func, ast.Name) and v.func.id == 'object' and not v.args and not v.keywords:
+            out.add(nm)
+    return out
+
+
+def _single_value(cfg: CFG, name: str) -> Optional[ast.AST]:
+    """Defining expression of *name* seen from the function of *cfg*, when the name is bound exactly once (by a plain
+    assignment outside any loop) in the scope that binds it."""
+    sc = cfg.scope
+    bs = sc.binding_scope(name)
+    if bs is None or name in getattr(bs, 'params', ()):
+        return None
+    vals: List[ast.AST] = []
+    other = 0
+    loops = 0
+
+    def walk(node, in_loop):
+        nonlocal other, loops
+        for ch in ast.iter_child_nodes(node):
+            if isinstance(ch, (ast.FunctionDef, ast.AsyncFunctionDef, ast.ClassDef)):
+                if ch.name == name:
+                    other += 1
+                if bs.kind == 'module' or True:
+                    # nested scopes: a `global`/`nonlocal` re-binding disqualifies the name
+                    for x in ast.walk(ch):
+                        if isinstance(x, (ast.Global, ast.Nonlocal)) and name in x.names:
+                            other += 1
+                continue
+            if isinstance(ch, ast.Lambda):
+                continue
+            if isinstance(ch, (ast.Assign, ast.AnnAssign)) and getattr(ch, 'value', None) is not None:
+                tg = ch.targets if isinstance(ch, ast.Assign) else [ch.target]
+                if len(tg) == 1 and isinstance(tg[0], ast.Name) and tg[0].id == name:
+                    vals.append(ch.value)
+                    if in_loop:
+                        loops += 1
+                    walk(ch.value, in_loop)
+                    continue
+            if isinstance(ch, ast.Name) and isinstance(ch.ctx, (ast.Store, ast.Del)) and ch.id == name:
+                other += 1
+            elif isinstance(ch, (ast.Import, ast.ImportFrom)) and any((al.asname or al.name).split('.')[0] == name for al in ch.names):
+                other += 1
+            elif isinstance(ch, ast.ExceptHandler) and ch.name == name:
+                other += 1
+            walk(ch, in_loop or isinstance(ch, (ast.For, ast.AsyncFor, ast.While)))
+    walk(bs.node, False)
+    if len(vals) == 1 and not other and not loops:
+        return vals[0]
     return None
 
 
@@ -94,7 +174,7 @@ def nullable_vars(cfg: CFG) -> Set[str]:
 
     def scan_test(t):
         for x in ast.walk(t):
-            nt = _none_test(x) or _isinstance_test(x)
+            nt = _none_test(x, cfg) or _isinstance_test(x)
             if nt:
                 out.add(nt[0])
     for n in cfg.nodes:
@@ -194,30 +274,40 @@ def _decide(env: Env, tok, want: bool) -> Optional[Env]:
     if base[0] == 'c':
         return env if base[1] == want else None
     if base[0] == 'none':
+        if len(base) > 1:
+            return env if want else None                  # a sentinel object() is truthy
         return env if not want else None
     if base[0] == 'obj' and len(base) > 2 and base[2] is not None:
         return env if want else None                  # a non-empty tuple / record is truthy
     if base[0] == 'isnone':
         inner = base[1]
+        sent = base[2] if len(base) > 2 else None      # `tok is None` / `tok is <sentinel>`
         ib, ineg = _strip_neg(inner)
         if ineg or ib[0] == 'c':
-            return env if not want else None           # a boolean is never None
+            return env if not want else None           # a boolean is never None / a sentinel
         if ib[0] == 'none':
-            return env if want else None
+            same = (ib[1] if len(ib) > 1 else None) == sent
+            return env if want == same else None
         if ib[0] == 'obj':
             return env if not want else None
-        key = '?' + repr(ib)
+        key = _idkey(ib, sent)
         prior = _env_get(env, key)
         if prior is not None:
             return env if prior == want else None
         env = _env_set(env, key, want)
         if want:
-            # None is falsy
+            # None is falsy, a sentinel is truthy
             tk = '#' + repr(ib)
             pt = _env_get(env, tk)
-            if pt is True:
+            if pt is not None and pt != (sent is not None):
                 return None
-            env = _env_set(env, tk, False)
+            env = _env_set(env, tk, sent is not None)
+            if sent is not None:
+                # ... and is not None
+                nk = '?' + repr(ib)
+                if _env_get(env, nk) is True:
+                    return None
+                env = _env_set(env, nk, False)
         return env
     key = '#' + repr(base)
     prior = _env_get(env, key)
@@ -233,22 +323,32 @@ def _decide(env: Env, tok, want: bool) -> Optional[Env]:
     return env
 
 
+def _idkey(ib, sent: Optional[str]) -> str:
+    """Environment key of the decision `ib is None` ('?...') / `ib is <sentinel>` ('$<sentinel>|...')."""
+    return ('?' + repr(ib)) if sent is None else ('$' + sent + '|' + repr(ib))
+
+
+def _isnone(tok, sent: Optional[str]):
+    return ('isnone', tok) if sent is None else ('isnone', tok, sent)
+
+
 def _known(env: Env, tok) -> Optional[bool]:
     """Truth value of *tok* if the path already determines it."""
     base, neg = _strip_neg(tok)
     if base[0] == 'c':
         return base[1] ^ neg
     if base[0] == 'none':
-        return False ^ neg
+        return (len(base) > 1) ^ neg
     if base[0] == 'obj' and len(base) > 2 and base[2] is not None:
         return True ^ neg
     if base[0] == 'isnone':
+        sent = base[2] if len(base) > 2 else None
         ib, ineg = _strip_neg(base[1])
         if ineg or ib[0] == 'c' or ib[0] == 'obj':
             return False ^ neg
         if ib[0] == 'none':
-            return True ^ neg
-        v = _env_get(env, '?' + repr(ib))
+            return ((ib[1] if len(ib) > 1 else None) == sent) ^ neg
+        v = _env_get(env, _idkey(ib, sent))
         return None if v is None else v ^ neg
     v = _env_get(env, '#' + repr(base))
     return None if v is None else v ^ neg
@@ -272,7 +372,7 @@ def nonnull_expr(cfg: CFG, v: ast.AST) -> bool:
         return nonnull_expr(cfg, v.values[-1])      # earlier operands are returned only when truthy, i.e. not None
     if isinstance(v, ast.IfExp):
         nt_ = _none_test(v.test)
-        if nt_ is not None:
+        if nt_ is not None and nt_[2] is None:
             keep = v.body if not nt_[1] else v.orelse
             other = v.orelse if not nt_[1] else v.body
             if isinstance(keep, ast.Name) and keep.id == nt_[0] and nonnull_expr(cfg, other):
@@ -295,6 +395,8 @@ def _value_token(cfg: CFG, env: Env, node: Node, v: Optional[ast.AST], flags: Se
     if isinstance(v, ast.Name):
         if v.id in flags or v.id in nulls:
             return _tok_of(cfg, env, v.id) or fresh
+        if v.id in sentinels(cfg):
+            return ('none', v.id)
         return fresh
     if isinstance(v, ast.UnaryOp) and isinstance(v.op, ast.Not):
         k = _eval_bool(cfg, env, v, flags, nulls)
@@ -303,11 +405,11 @@ def _value_token(cfg: CFG, env: Env, node: Node, v: Optional[ast.AST], flags: Se
         if isinstance(v.operand, ast.Name) and (v.operand.id in flags):
             src = _tok_of(cfg, env, v.operand.id) or fresh
             return ('n', src)
-        nt = _none_test(v.operand)
+        nt = _none_test(v.operand, cfg)
         if nt and nt[0] in nulls:
             t = _tok_of(cfg, env, nt[0])
             if t is not None:
-                tk = ('isnone', t)
+                tk = _isnone(t, nt[2])
                 return ('n', tk) if nt[1] else tk
         return ('n', fresh)
     if isinstance(v, (ast.BoolOp, ast.IfExp)):
@@ -317,11 +419,11 @@ def _value_token(cfg: CFG, env: Env, node: Node, v: Optional[ast.AST], flags: Se
         if nonnull_expr(cfg, v):
             return ('obj', node.id, None)
         return fresh
-    nt = _none_test(v)
+    nt = _none_test(v, cfg)
     if nt and nt[0] in nulls:
         t = _tok_of(cfg, env, nt[0])
         if t is not None:
-            tk = ('isnone', t)
+            tk = _isnone(t, nt[2])
             kn = _known(env, tk)
             if kn is not None:
                 return ('c', kn if nt[1] else not kn)
@@ -386,11 +488,11 @@ def _eval_bool(cfg: CFG, env: Env, v: ast.AST, flags: Set[str], nulls: Set[str])
     if isinstance(v, ast.Name) and (v.id in flags):
         t = _tok_of(cfg, env, v.id)
         return _known(env, t) if t is not None else None
-    nt = _none_test(v)
+    nt = _none_test(v, cfg)
     if nt and nt[0] in nulls:
         t = _tok_of(cfg, env, nt[0])
         if t is not None:
-            kn = _known(env, ('isnone', t))
+            kn = _known(env, _isnone(t, nt[2]))
             if kn is not None:
                 return kn if nt[1] else not kn
     return None
@@ -443,11 +545,11 @@ def _step(cfg: CFG, flags: Set[str], node: Node, env: Env, e: Edge) -> Optional[
         if isinstance(t, ast.Name) and t.id in flags:
             tok = _tok_of(cfg, env, t.id)
         else:
-            nt = _none_test(t)
+            nt = _none_test(t, cfg)
             if nt and nt[0] in nulls:
                 base = _tok_of(cfg, env, nt[0])
                 if base is not None:
-                    tok = ('isnone', base) if nt[1] else ('n', ('isnone', base))
+                    tok = _isnone(base, nt[2]) if nt[1] else ('n', _isnone(base, nt[2]))
             else:
                 it = _isinstance_test(t)
                 if it and it[0] in nulls:
@@ -484,7 +586,8 @@ def _step(cfg: CFG, flags: Set[str], node: Node, env: Env, e: Edge) -> Optional[
             # a fresh value: forget what an earlier iteration decided about it
             r0 = repr(('v', node.id))
             r1 = repr(base)
-            env = _env_del(env, lambda k: isinstance(k, str) and k[:1] in '#?' and (k[1:] == r0 or k[1:] == r1))
+            env = _env_del(env, lambda k: isinstance(k, str) and ((k[:1] in '#?' and (k[1:] == r0 or k[1:] == r1))
+                                                                  or (k[:1] == '$' and k.split('|', 1)[-1] in (r0, r1))))
         if isinstance(v, (ast.BoolOp, ast.UnaryOp, ast.IfExp)):
             inner = {str(id(x)) for x in ast.walk(v)}
             env = _env_del(env, lambda k: isinstance(k, str) and k[:1] == '%' and k[1:] in inner)
